@@ -66,6 +66,7 @@ ENGINES = {
     "e_reject": {"dir": "e_reject", "units": [("e_reject.cpp", {}), ("reject_static.cpp", {}), ("reject_dynamic.cpp", {}), ("reject_misc.cpp", {}),
                                                ("$REPO/c-interface/cpgm.cpp", {})]},
     "e_copy": {"dir": "e_copy", "units": [("e_copy.cpp", {})]},
+    "e_conc": {"dir": "e_conc", "units": [("e_conc.cpp", {})]},
     "e_variants": {"dir": "e_variants", "units": [
         ("inst.cpp", {"VF_KEY": "uint8_t", "VF_KEYID": "u8", "VF_KEYBITS": "8"}),
         ("inst.cpp", {"VF_KEY": "uint16_t", "VF_KEYID": "u16", "VF_KEYBITS": "16"}),
@@ -120,6 +121,8 @@ CHECKS = {
             "quick": {"shards": 1, "cases": 700, "crash_shrink_budget": 300}, "thorough": {"shards": 2, "cases": 40000, "crash_shrink_budget": 600}},
     "C19": {"engine": "e_copy", "variant": "asan",
             "quick": {"shards": 8, "cases": 1200, "crash_shrink_budget": 300}, "thorough": {"shards": 16, "cases": 40000, "crash_shrink_budget": 600}},
+    "C16": {"engine": "e_conc", "variant": "tsan",
+            "quick": {"shards": 8, "cases": 500, "crash_shrink_budget": 200}, "thorough": {"shards": 16, "cases": 6000, "crash_shrink_budget": 400}},
     "C07": {"engine": "e_static",
             "quick": {"shards": 8, "cases": 4000}, "thorough": {"shards": 16, "cases": 120000}},
 }
@@ -215,6 +218,10 @@ DESCR = {
                      "freed memory, updates of sources and queries; every live value must keep answering exactly like its lineage",
             "design_ref": "DESIGN.md section 6 C19", "note": "trusted: AddressSanitizer for use-after-free of source-owned storage; 64-bit digests of the answers (collision probability negligible); MappedPGMIndex is not in C19's list and is not exercised",
             "technique": "stateful property-based testing (digest equality) with AddressSanitizer as second oracle"},
+    "C16": {"level": "generated-input search under ThreadSanitizer: generated objects of all seven classes are queried by 2..16 threads running generated scripts from "
+                     "one barrier; the happens-before detector covers the schedule dimension for the accesses that execute, result digests cover consistency",
+            "design_ref": "DESIGN.md section 6 C16", "note": "trusted: ThreadSanitizer (g++ 12); harness and headers built without OpenMP (libgomp is not instrumented); interleavings are not enumerated: a race is reported only if both conflicting accesses execute in the run",
+            "technique": "property-based testing with ThreadSanitizer (happens-before race detection) + differential digest vs sequential run"},
     "C07": {"level": "generated-input search with the routing hook: per level the chosen segment must be the responsible one, within EpsRec+1 of the prediction, "
                      "found inside the 2*EpsRec+3 window; level sizes obey floor(m/(2*EpsRec+1))+c",
             "design_ref": "DESIGN.md section 6 C07", "note": _STATIC_NOTE + "; relies on the PGM_INDEX_VERIF route_event hook",
